@@ -317,3 +317,17 @@ def nested_tree_edge_family():
         for i in inner:
             out.append(o % i)
     return list(dict.fromkeys(out))
+
+
+
+def sole_boundary_family():
+    """an alternative (or repetition body) that is SOLELY a boundary, with every kind of neighbour on either side"""
+    branches = ["{b,/}", "{/,b}", "{b,**}", "{b,{c,/}}", "{b,x{c,/}}", "{/}", "{b,/**/}", "</:1,>", "</:0,1>", "<{b,/}:1,>", "{b,/,c}", "{{/},b}"]
+    lefts = ["", "a", "a/", "*", "**/", "{x,y}", "x{y,z}"]
+    rights = ["", "c", "/c", "/", "/**", "/**/c", "{/c,d}", "</c:1,>", "*", "**"]
+    out = []
+    for l in lefts:
+        for b in branches:
+            for r in rights:
+                out.append(l + b + r)
+    return list(dict.fromkeys(out))
